@@ -29,7 +29,7 @@ CHECK_DEADLOCK FALSE
 '''
 CONFIGS = [{'sql': 'default', 'dbml': 'default'}, {'sql': 'custom', 'dbml': 'default'}, {'sql': 'default', 'dbml': 'custom'},
            {'sql': 'custom', 'dbml': 'custom'}]
-ROUTES = ['built', 'ctor', 'parse']
+ROUTES = ['built', 'ctor', 'parse', 'ctor_path', 'ctor_file', 'instance']       # every way the renderer classes can be handed over
 
 _CLASSES = None
 
@@ -94,6 +94,24 @@ def _exec_chunk(items):
             db = builder.build(it['model'], **kw)
         elif it['route'] == 'ctor':
             db = PyDBML(print_doc(it['doc'], None, {}), **kw)
+        elif it['route'] in ('ctor_path', 'ctor_file'):
+            import os
+            import tempfile
+            from pathlib import Path
+            from . import tlc as _tlc
+            fd, fn = tempfile.mkstemp(suffix='.dbml', dir=_tlc.scratch())
+            with os.fdopen(fd, 'w', encoding='utf8') as f:
+                f.write(print_doc(it['doc'], None, {}))
+            try:
+                if it['route'] == 'ctor_path':
+                    db = PyDBML(Path(fn), **kw)
+                else:
+                    with open(fn, encoding='utf8') as f:
+                        db = PyDBML(f, **kw)
+            finally:
+                os.unlink(fn)
+        elif it['route'] == 'instance':
+            db = PyDBML().parse(print_doc(it['doc'], None, {}), **kw)
         else:
             db = PyDBML.parse(print_doc(it['doc'], None, {}), **kw)
         s0 = pj.project_db(db)
